@@ -780,6 +780,24 @@ def _wrap_fit(mon, orig):
         a0, b0 = np.array(fl_rfi, dtype=float, copy=True), np.array(fl_mef, dtype=float, copy=True)
         out = orig(fl_rfi, fl_mef)
         try:
+            # history: what an earlier fit returned (parameters, standard curve, bead model) still is what it was
+            probe = np.array([0.5, 3.0, 40.0, 700.0, 9000.0, 2.0e5])
+            prev = getattr(mon, 'prev_fit', None)
+            with np.errstate(all='ignore'):
+                if prev is not None:
+                    pout, ppar, py, pm = prev
+                    same = np.array_equal(np.asarray(pout[2], dtype=float), ppar, equal_nan=True) \
+                        and np.array_equal(np.asarray(pout[0](probe), dtype=float), py, equal_nan=True) \
+                        and np.array_equal(np.asarray(pout[1](probe), dtype=float), pm, equal_nan=True)
+                    mon.ctx.counters['chk_fit_history'] += 1
+                    mon.chk(same, 'fit:earlier-fit-changed-by-later-fit', earlier_params=ppar.tolist(),
+                            earlier_params_now=np.asarray(pout[2], dtype=float).tolist(), rfi=a0.tolist(), mef=b0.tolist())
+                mon.prev_fit = (out, np.array(out[2], dtype=float, copy=True), np.array(out[0](probe), dtype=float, copy=True),
+                                np.array(out[1](probe), dtype=float, copy=True))
+        except Exception as e:   # noqa
+            mon.ctx.note('oracle-error fit-history: ' + core.exc_str(e))
+            mon.ctx.counters['oracle_errors'] += 1
+        try:
             oracle_fit_structure(mon, a0, b0, fl_rfi, fl_mef, out)
         except Exception as e:   # noqa
             mon.ctx.note('oracle-error fit: ' + core.exc_str(e))
